@@ -214,6 +214,10 @@ def main():
                     case[a] = "slack"
                     chk.add(delta_kernel, real_t=rt, dim=dim, kernel=kernel, grid=grid, cell=cells[0], case=case, dx_kind="unit")
                 chk.add(delta_kernel, real_t=rt, dim=dim, kernel=kernel, grid=grid, cell=[2] * dim, case=["interior"] * dim, dx_kind="unit", n_markers=2)
+    if chk.quick:
+        for dim in (2, 3):
+            for kernel in ("peskin", "cosine"):
+                chk.add(delta_kernel, real_t="float32", dim=dim, kernel=kernel, grid=((7, 8) if dim == 2 else (7, 6, 8)), cell=[3] * dim, case=["zero"] + ["interior"] * (dim - 1), dx_kind="unit")
     chk.bounds = ["one marker (kernels are per-marker maps) + a 2-marker run for the tiling; marker offset f_a in [0,1) symbolic per axis (cases f=0 / 0<f<1), cell index enumerated",
                   "float-floor slack: marker within 2^-20 cell widths above a cell centre with the index one lower (tolerance 1e-9 on sums)", "grids (7,8) / (7,6,8) (dx = 1/8 exactly representable); dx = 1/n (and 0.37/n thorough); both kernels; 2D and 3D"]
     chk.outside = ["markers closer than two cells to the domain boundary (documented TODO of the source)", "rounding of the weight evaluation itself", "symbolic dx (dx only rescales distances; enumerated values)"]
